@@ -404,3 +404,19 @@ Theorem ants_steps_decisions_from_handlers :
            asb_err (nth (ata_bi y) (aso_behs (att_opt x)) ast_dummy_beh)).
 Proof. exact ast_steps_decisions_from_handlers. Qed.
 Print Assumptions ants_steps_decisions_from_handlers.
+
+(* (D21) ">= 1 invocation" on the step model (both modes, every run): callbacks are never dropped while the pool is
+   open -- an attempt record whose handler was not started (ata_hst = 0) is still held by the dispatcher about to
+   enqueue it (sendInnerCallback) or travels in innerCallbackChan (ata_owner = AwChan), unless the pool has been
+   closed (then sendInnerCallback may take the closeChan branch).  Together with att_natt = number of attempt
+   records of a task (proofs/AntsStepsCountN.v) and FIFO reception by the inner workers (ast_step_pc), every
+   attempt of every task is invoked as soon as the inner workers get to it.  That the scheduler does get to it
+   (fairness) is not a statement about states; the C07 monitor checks it when all threads come to rest. *)
+From Got Require Import AntsStepsKeep.
+
+Theorem ants_steps_callbacks_never_dropped :
+  forall md n progs s a y,
+    ast_reach md n progs s -> ast_closed s = false -> nth_error (ast_atts s) a = Some y -> ata_hst y = 0%nat ->
+    ata_owner y = AwChan \/ exists i, ata_owner y = AwThread i.
+Proof. exact ast_steps_callbacks_never_dropped. Qed.
+Print Assumptions ants_steps_callbacks_never_dropped.
